@@ -574,9 +574,31 @@ end
 
 /-! ### Byte-slice path -/
 
+/-- The reader's `Size()` of what it decodes never exceeds the bytes on the wire: restriction only drops
+    fields, and `Size()` only skips some. -/
+theorem gsize_restrict_le (env1 : Env) (v : Val) (ty : Ty) : gsize env1 ty (restrict env1 ty v) ≤ vsize v :=
+  Nat.le_trans (gsize_le_vsize env1 _ ty) (vsize_restrict_le env1 v ty)
+
+/-- A struct decoded as the MEMBER of a union (or anywhere its remaining buffer is discarded): once its
+    fields are decoded, the only use of its `Size()` is the bounds check of the slice expression, and that
+    holds because the reader's `Size()` never exceeds the bytes on the wire (`gsize_restrict_le`).  Where
+    the cursor ends up is of no concern. -/
+theorem dec_struct_discard (env1 : Env) (safe : Bool) (f m : Nat) (tys : List Ty) (fs : List Val) (rest : List Byte)
+    (hn1 : env1[m]? = some (.struct tys))
+    (hfields : decFields (dec f env1 safe) tys (encList fs ++ rest) = .ok (restrictStruct env1 tys fs, rest)) :
+    ∃ r, dec (f+1) env1 safe (.ref m) (enc (.struct fs) ++ rest) = .ok (restrict env1 (.ref m) (.struct fs), r) := by
+  have hle : gsize env1 (.ref m) (.struct (restrictStruct env1 tys fs)) ≤ (encList fs ++ rest).length := by
+    have h1 := gsize_restrict_le env1 (.struct fs) (.ref m)
+    simp only [restrict, hn1] at h1
+    have h2 : vsize (.struct fs) = (encList fs).length := by simp [vsize, length_encList]
+    rw [List.length_append]; omega
+  refine ⟨(encList fs ++ rest).drop (gsize env1 (.ref m) (.struct (restrictStruct env1 tys fs))), ?_⟩
+  simp only [dec, hn1, enc, restrict, hfields, Res.ok_bind, hle, if_true, Res.pure_eq]
+
 mutual
 /-- The byte-slice decoders (checked and unchecked) of the older schema return the restriction and stop
-    exactly at the end of the encoding, provided nested structs keep their size (`StructsStable`). -/
+    exactly at the end of the encoding, provided nested structs keep their size (`StructsStable`).  A struct
+    that is the member of a union need not: the cursor behind the member is discarded (`dec_struct_discard`). -/
 theorem dec_evo (env1 env2 : Env) (hE1 : EnvOk env1) (hx : Extends env1 env2) :
     (v : Val) → ∀ (ty : Ty) (safe : Bool) (f : Nat) (rest : List Byte), wt env2 ty v → StructsStable env1 ty v →
       rank v < f → dec f env1 safe ty (enc v ++ rest) = .ok (restrict env1 ty v, rest)
@@ -705,9 +727,33 @@ theorem dec_evo (env1 env2 : Env) (hE1 : EnvOk env1) (hx : Extends env1 env2) :
       simp only [wt] at h
       obtain ⟨n, brs, m, rfl, hn, hd, hm, hw, hsz⟩ := h
       have hn1 := hx.get_union hn
-      simp only [StructsStable, hn1, hm] at hs
+      rw [structsStable_union env1 v hn1 hm] at hs
       simp only [rank] at hf
       have hf' : rank v < f := by omega
+      -- the member: a struct member need not keep its size, the cursor behind it is discarded
+      have hbr : ∃ r, dec f env1 safe (.ref m) (enc v ++ rest) = .ok (restrict env1 (.ref m) v, r) := by
+        match v, hw, hs, hf' with
+        | .struct fs, hw, hs, hf' =>
+          match f, hf' with
+          | 0, hf' => simp [rank] at hf'
+          | f+1, hf' =>
+          simp only [wt] at hw
+          obtain ⟨m', tys, hm', hnm, hws⟩ := hw
+          cases hm'
+          have hnm1 := hx.get_struct hnm
+          simp only [TopStable, hnm1] at hs
+          simp only [rank] at hf'
+          exact dec_struct_discard env1 safe f m tys fs rest hnm1
+            (decFields_evo env1 env2 hE1 hx fs tys safe f rest hws hs (by omega))
+        | .msg fs, hw, hs, hf' => exact ⟨rest, dec_evo env1 env2 hE1 hx (.msg fs) (.ref m) safe f rest hw hs hf'⟩
+        | .union d' v', hw, hs, hf' =>
+          exact ⟨rest, dec_evo env1 env2 hE1 hx (.union d' v') (.ref m) safe f rest hw hs hf'⟩
+        | .scalar _ _, hw, _, _ => simp [wt] at hw
+        | .str _, hw, _, _ => simp [wt] at hw
+        | .guid _, hw, _, _ => simp [wt] at hw
+        | .arr _, hw, _, _ => simp [wt] at hw
+        | .map _, hw, _, _ => simp [wt] at hw
+      obtain ⟨r, hbr⟩ := hbr
       have hlen : (enc v).length < 2^32 := by rw [length_enc]; exact hsz
       have hbody : enc (.union d v) ++ rest = leBytes 4 (enc v).length ++ (UInt8.ofNat d :: (enc v ++ rest)) := by
         simp [enc, List.append_assoc]
@@ -715,7 +761,7 @@ theorem dec_evo (env1 env2 : Env) (hE1 : EnvOk env1) (hx : Extends env1 env2) :
         rw [hbody, List.take_left' (by simp)]
       simp only [dec, hn1, restrict, hm, decUnionBody]
       rw [htake, hbody, readN_append' safe 4 _ _ (by simp)]
-      simp only [Res.ok_bind, toNat_ofNat_lt d hd, hm, dec_evo env1 env2 hE1 hx v (.ref m) safe f rest hw hs hf',
+      simp only [Res.ok_bind, toNat_ofNat_lt d hd, hm, hbr,
         Res.pure_eq, ofLe_leBytes 4 _ (by simpa using hlen)]
       have hvs : gsize env1 (.ref n) (.union d (restrict env1 (.ref m) v)) ≤ Facts.unionHeaderLen + (enc v).length := by
         have h1 := gsize_le_vsize env1 (.union d (restrict env1 (.ref m) v)) (.ref n)
@@ -976,11 +1022,6 @@ end
 theorem restrict_self (env : Env) (ty : Ty) (v : Val) (h : wt env ty v) : restrict env ty v = v :=
   restrict_id_of_known env env (Extends.refl env) v ty h
 
-/-- The reader's `Size()` of what it decodes never exceeds the bytes on the wire: restriction only drops
-    fields, and `Size()` only skips some. -/
-theorem gsize_restrict_le (env1 : Env) (v : Val) (ty : Ty) : gsize env1 ty (restrict env1 ty v) ≤ vsize v :=
-  Nat.le_trans (gsize_le_vsize env1 _ ty) (vsize_restrict_le env1 v ty)
-
 mutual
 /-- For a value of the reader's own schema the slice guard holds: nothing is dropped (`restrict_self`) and
     no present field is deprecated (`wt`), so `Size()` is the length of the encoding.
@@ -1015,7 +1056,20 @@ theorem stable_self (env : Env) : (v : Val) → ∀ ty, wt env ty v → StructsS
   | .union d v, ty, h => by
       simp only [wt] at h
       obtain ⟨n, brs, m, rfl, hn, _, hm, hw, _⟩ := h
-      simp only [StructsStable, hn, hm]; exact stable_self env v (.ref m) hw
+      rw [structsStable_union env v hn hm]
+      match v, hw with
+      | .struct fs, hw =>
+        simp only [wt] at hw
+        obtain ⟨m', tys, hm', hnm, hws⟩ := hw
+        cases hm'
+        simp only [TopStable, hnm]; exact stableStruct_self env fs tys hws
+      | .msg fs, hw => exact stable_self env (.msg fs) (.ref m) hw
+      | .union d' v', hw => exact stable_self env (.union d' v') (.ref m) hw
+      | .scalar _ _, hw => simp [wt] at hw
+      | .str _, hw => simp [wt] at hw
+      | .guid _, hw => simp [wt] at hw
+      | .arr _, hw => simp [wt] at hw
+      | .map _, hw => simp [wt] at hw
 theorem stableList_self (env : Env) : (vs : List Val) → ∀ t, wtList env t vs → stableList env t vs
   | [], _, _ => by simp [stableList]
   | v :: vs, t, h => by
